@@ -163,7 +163,12 @@ def eval_program(arg) -> dict:
     cnt = out['counts']
     case = {'seed': seed, 'stream': stream, 'kind': kind, 'cfg': enc, 'component': info['fqn'],
             'doc': M.to_json(gen.model)}
-    compilers = ['plain'] + (['clang'] if tier == 'thorough' else [])
+    # which compiler and language level the user's project has is not ours to choose: g++ and
+    # clang++-14, C++17 and C++20, rotated over the programs (both compilers in the thorough tier)
+    compilers = ['plain', 'clang'] if tier == 'thorough' else [['plain', 'clang'][stream % 2]]
+    cxxlab.EXTRA_FLAGS[:] = ['-std=c++20'] if (stream // 2) % 2 else []
+    cnt[f'compiled_with_{compilers[-1]}'] = 1
+    cnt['compiled_as_' + ('c++20' if cxxlab.EXTRA_FLAGS else 'c++17')] = 1
 
     def viol(shape, stderr, **detail):
         err = cxxlab.first_error(stderr)
@@ -221,13 +226,13 @@ def eval_program(arg) -> dict:
             if rc not in (0, -9):
                 viol('orders', err, compiler=flavor)
     # (d) used from another translation unit: link and run
-    if prog.compile('plain'):
+    if prog.compile(compilers[-1]):
         cnt['programs_linked'] = 1
         script = [f'construct {prog.locator_shape()}']
         if enc.get('multiclient'):
             script += ['register A', 'register B', 'bindall A', 'bindall B', 'clients']
         script += ['bindall -', 'final', 'addresses']
-        res = prog.run('\n'.join(script) + '\n')
+        res = prog.run('\n'.join(script) + '\n', compilers[-1])
         kinds_seen = {r.get('kind') for r in res['log']}
         if res['timeout']:
             out['inconclusive'] = 'harness watchdog'
@@ -263,7 +268,7 @@ def eval_program(arg) -> dict:
     cxxlab.write_files(work, alt_files)
     src = 'tu_two_shells.cc'
     cxxlab.write_files(work, {src: tu([shell_hh, shellbuild.shell_name(same) + '.hh'])})
-    rc, err = cxxlab.syntax_only(work, src, 'plain')
+    rc, err = cxxlab.syntax_only(work, src, compilers[-1])
     cnt['tu_two_shells'] = 1
     if rc not in (0, -9):
         viol('two-shells-one-tu', err)
@@ -273,7 +278,7 @@ def eval_program(arg) -> dict:
     cxxlab.write_files(work, {src: tu(all_headers)})
     exe = os.path.join(work, 'coexist')
     rc, err = cxxlab.compile_link(work, [src, shellbuild.shell_name(enc) + '.cc',
-                                         shellbuild.shell_name(alt) + '.cc'], exe, 'plain')
+                                         shellbuild.shell_name(alt) + '.cc'], exe, compilers[-1])
     cnt['programs_coexist'] = 1
     if rc not in (0, -9):
         viol('coexist-prefixes', err)
@@ -281,6 +286,7 @@ def eval_program(arg) -> dict:
 
 
 def finish(out, case, work):
+    cxxlab.EXTRA_FLAGS[:] = []
     shutil.rmtree(work, ignore_errors=True)
     out['digest'] = common.digest({'doc': case['doc'], 'cfg': case['cfg']})
     out['nontrivial'] = True
@@ -296,7 +302,8 @@ def main(tier: str) -> int:
     run = common.Run(PROP, tier, level='exploration')
     n = 14 if tier == 'quick' else 300
     scratch = run.scratch()
-    run.require('tu_alone', 'tu_twice', 'tu_orders', 'programs_linked', 'programs_run',
+    run.require('compiled_with_clang', 'compiled_with_plain', 'compiled_as_c++20', 'compiled_as_c++17',
+                'tu_alone', 'tu_twice', 'tu_orders', 'programs_linked', 'programs_run',
                 'tu_two_shells', 'programs_coexist', 'kind_global-component', 'kind_random-mc')
     jobs = [(run.seed, i, scratch, tier) for i in range(n)] + \
         [(run.seed, -k, scratch, tier) for k in range(1, len(HOSTILE_FORMALS) + 2)]
